@@ -225,3 +225,25 @@ Lemma golden16_ge x : x <= golden16 x.
 Proof. unfold golden16. pose proof (align16_ge (N.max (x * 103 / 64) x)). lia. Qed.
 Lemma bytes_cover n w : w * n <= 8 * ((n * w + 7) / 8).
 Proof. lia. Qed.
+
+(* ---------- the same for a writer that supports one particular width (UintVector: widths up to 32) ---------- *)
+Definition wr_ok_at (wr : writer) (w : N) : Prop :=
+  forall d v off, off + w <= 8 * blen d -> wr d v off w = IOk (orv d (N.land v (N.ones w)) off).
+
+Lemma seq_loop_spec_at wr w : wr_ok_at wr w -> forall fields d off,
+  off + w * nlen fields <= 8 * blen d ->
+  seq_loop wr d fields w off = IOk (orv d (pack w fields) off).
+Proof.
+  intros Hwr. induction fields as [|v t IH]; intros d off Hfit.
+  - cbn [seq_loop pack]. rewrite orv_zero. reflexivity.
+  - cbn [seq_loop pack nlen] in *. rewrite Hwr by nia. cbn [ibind].
+    rewrite IH by (cbn [orv blen]; nia). rewrite orv_orv. reflexivity.
+Qed.
+
+Lemma pack_app : forall a b w, pack w (a ++ b) = N.lor (pack w a) (N.shiftl (pack w b) (w * nlen a)).
+Proof.
+  induction a as [|x a IH]; intros b w.
+  - cbn [app pack nlen]. rewrite N.mul_0_r, N.shiftl_0_r, N.lor_0_l. reflexivity.
+  - cbn [app pack nlen]. rewrite IH, N.shiftl_lor, N.shiftl_shiftl, N.lor_assoc.
+    f_equal. f_equal. lia.
+Qed.
